@@ -46,7 +46,9 @@ VOCAB = (["permit", "deny", "remark", "ip", "tcp", "udp", "icmp", "any", "host",
          + ["0", "1", "10", "255", "256", "65535", "65536", "4294967295", "4294967296", "-1", "1e3", "0x10", "٣", "１２", "²"]
          + ["10.0.0.1", "0.0.0.255", "255.255.255.0", "0.0.0.0", "255.255.255.255", "300.1.1.1", "1.2.3", "1.2.3.4.5", "10.0.0.0/8",
             "10.0.0.0/33", "10.0.0.1/24", "0.0.0.0/0", "1.1.1.1/-1", "0.255.0.255", "85.85.85.85", "255.85.255.85"]
-         + ["NAME", "A-1", "x_y", "?", "a?b", "é", "'", '"', "\\", "(", ")", ",", "="])
+         + ["NAME", "A-1", "x_y", "?", "a?b", "é", "'", '"', "\\", "(", ")", ",", "="]
+         + ["ACL-IN(1", "ACL[EDGE", "*EDGE*", "ACL)", "A+B", "a|b", "x{2", "1" * 30, "9" * 45, "12345678901234567890123456789012 permit",
+            "00000000000000000000000000000000000010"])
 
 
 def _hostile(rng, cls):
@@ -259,6 +261,11 @@ DETERMINISTIC = [
     {"cls": "aces", "text": "\n".join(" " * i + f"l{i}" for i in range(1200)), "kwargs": {"platform": "nxos"}},
     {"cls": "addrgroups", "text": "\n".join(" " * i + f"l{i}" for i in range(1100)), "kwargs": {"platform": "ios"}},
     {"cls": "acls", "text": "\n".join(" " * (i % 7) + "ip access-list extended A" for i in range(300)), "kwargs": {"platform": "ios"}},
+    {"cls": "acls", "text": "ip access-list extended ACL-IN(1\n permit ip any any\ninterface Eth1\n ip access-group ACL-IN(1 in\n", "kwargs": {"platform": "ios"}},
+    {"cls": "acls", "text": "ip access-list ACL[EDGE\n permit ip any any\ninterface Eth1\n ip access-group ACL[EDGE out\n ip access-group *X* in\n", "kwargs": {"platform": "nxos"}},
+    {"cls": "Acl", "text": "ip access-list extended A\n " + "7" * 40 + " foo\n permit ip any any", "kwargs": {"platform": "ios"}},
+    {"cls": "AceGroup", "text": "1" * 33 + "\n" + "2" * 29 + " x", "kwargs": {"platform": "nxos"}},
+    {"cls": "aces", "text": "ip access-list extended A\n " + "3" * 36 + "\n", "kwargs": {"platform": "ios"}},
     {"cls": "Ace", "text": "permit tcp any any eq " + " ".join(str(i) for i in range(1, 600)), "kwargs": {"platform": "ios"}},
     {"cls": "Acl", "text": "ip access-list extended A\n" + "\n".join(f" permit tcp host 10.0.{i % 250}.1 any eq {i + 1}" for i in range(400)),
      "kwargs": {"platform": "ios"}},
